@@ -70,15 +70,15 @@ func genConcTask(r *sim.Rng) ConcTask {
 	lim := sim.Pick(r, []int{300, 1500, 1500, 20000})
 	switch r.Intn(6) {
 	case 0:
-		w := genXZWCase(r, "quick", 0, false)
+		w := genXZWCase(r, "src", 0, false)
 		small(w, lim)
 		return ConcTask{W: w}
 	case 1:
-		w := &genLZWCase(r, "quick", false, false).W
+		w := &genLZWCase(r, "src", false, false).W
 		small(w, lim)
 		return ConcTask{W: w}
 	case 2:
-		w := genL2WCase(r, "quick", false)
+		w := genL2WCase(r, "src", false)
 		small(w, lim)
 		return ConcTask{W: w}
 	}
@@ -117,7 +117,7 @@ func genConcCase(r *sim.Rng, tier string, idx int) *ConcCase {
 				c.Tasks = append(c.Tasks, ConcTask{R: &RCase{Stream: StreamRecipe{Kind: "refenc-xz", Seed: r.Uint64()}, Src: genSrcPlan(r), Reads: []int{64}, RDict: 4096}})
 				continue
 			}
-			w := genXZWCase(r, "quick", 0, false)
+			w := genXZWCase(r, "src", 0, false)
 			w.XZ.BlockSize = sim.Pick(r, []int64{0, 0, 100, 512})
 			if i%2 == 0 {
 				w.XZ.CheckSum, w.XZ.NoCheckSum = 0, false // default CRC64
